@@ -30,6 +30,9 @@ def cells(tier, lens=None, angs=None, extra_angs=()):
     # angles within 1e-3 .. 1e-7 degrees of a right angle (thresholds that snap "almost 90" to 90 live here)
     trip += [(90.0, 90.0004, 90.0), (89.9996, 90.0, 90.0), (90.0, 90.0, 90.00005), (90.0004, 89.9996, 90.0004), (90.000001, 90.0, 89.999999),
              (120.0, 90.0004, 89.9996), (60.0, 60.0, 90.00001)]
+    # very obtuse / very acute angles (still Gram >= 0.02): branches that treat |cos| near 1 specially live here
+    trip += [t for t in [(165.0, 90.0, 90.0), (90.0, 165.0, 90.0), (90.0, 90.0, 165.0), (15.0, 90.0, 90.0), (90.0, 15.0, 90.0), (90.0, 90.0, 15.0),
+                         (95.0, 92.0, 163.0), (162.0, 85.0, 97.0), (17.0, 80.0, 85.0), (170.0, 90.0, 90.0), (90.0, 10.0, 90.0)] if gram(*t) >= 0.02]
     trip += list(extra_angs)
     out = []
     for l in lens:
